@@ -320,5 +320,30 @@ fn channel_two_senders() {
 // @assume critical-section granularity (sequential Mutex stand-in); multi-stakker,no-unsafe-queue build
 sync_harness!(ch_two_senders, channel_two_senders());
 
+fn channel_close_empty() {
+    let mut s = new_stakker();
+    unsafe { FWDN = 0 };
+    let (ch, guard): (Channel<u32>, ChannelGuard) = Channel::new(&mut s, fwd_log());
+    let ch2 = ch.clone();
+    assert!(!ch.is_closed() && !ch2.is_closed());
+    drop(guard);
+    assert!(ch.is_closed() && ch2.is_closed(), "C13: every handle must see the channel closed once the guard is dropped");
+    let a: u32 = kani::any();
+    assert!(!ch.send(a) && !ch2.send(a), "C13: send must return false after close");
+    s.poll_wake();
+    s.poll_wake();
+    assert!(fwdn() == 0, "C13: nothing may be forwarded after the guard is dropped");
+    // the channel's Waker was dropped by close(): its handler is gone after the first poll_wake
+    kani::cover!(true, "done");
+    std::mem::forget(s);
+}
+// @verif prop=C13,C12 tier=quick timeout=900 mem=24 unwind=10 unwindset=drop_glue::<\[.*Stakker\)>\]>\.0$:1,Leaf(::|5)drain.*\.0$:3
+// @enc Channel::{new,send,is_closed,clone} ChannelGuard::drop Closable::close Waker::drop Stakker::{poll_wake,process_waker_drops}
+// @sym message value
+// @bound 2 handles, guard dropped at once, 2 rejected sends, 2 poll_wake calls
+// @stub std::hash::RandomState::new -> fixed keys
+// @assume critical-section granularity (sequential Mutex stand-in); multi-stakker,no-unsafe-queue build
+sync_harness!(ch_close_empty, channel_close_empty());
+
 #[cfg(uazu_replay_syncs)]
 include!(env!("UAZU_STAKKER_REPLAY_FILE"));
